@@ -58,10 +58,12 @@ def gen_case(streams, tier, avoid):
     prof["avoid"] = avoid
     case = hist.gen_history(streams, tier, prof)
     f = streams.get("faults")
+    case["one_graph_file"] = f.random() < 0.5
     if f.random() < 0.25:
         _add_chain(case, f)
+    p_exp = 0.9 if case["one_graph_file"] else 0.6
     for op in case["ops"]:
-        if op["op"] == "eval" and f.random() < 0.6:
+        if op["op"] == "eval" and f.random() < p_exp:
             op["style"] = "eval"
             op["opts"] = {"dds_export_graph": "dot"}
             if f.random() < 0.3:
